@@ -285,6 +285,7 @@ def main():
     changed |= write_if_changed(os.path.join(OUT, "RecLock.lean"), extract_tail.render_rec_lock(extract_tail.rec_lock(parse)))
     changed |= write_if_changed(os.path.join(OUT, "GenericsSrc.lean"), extract_tail.render_generics_src(extract_tail.generics_src(parse)))
     changed |= write_if_changed(os.path.join(OUT, "AggSrc.lean"), extract_tail.render_agg_src(extract_tail.agg_src(parse)))
+    changed |= write_if_changed(os.path.join(OUT, "MetaSrc.lean"), extract_tail.render_meta_src(extract_tail.meta_src(parse)))
     changed |= write_if_changed(os.path.join(OUT, "ConstraintsSrc.lean"), extract_tail.render_constraints(extract_tail.constraints_src(parse)))
     print("generated", "changed" if changed else "unchanged")
 
